@@ -29,6 +29,12 @@ class NS:
     def __init__(self, **kw):
         self.__dict__.update(kw)
 
+    def _asdict(self):          # objects of class '<nt>' stand for namedtuples
+        return dict(self.__dict__)
+
+    def _replace(self, **kw):
+        return NS(**dict(self.__dict__, **kw))
+
 
 def find_class(name):
     if '.' in name:
